@@ -12,6 +12,7 @@ import (
 	"runtime"
 	"strings"
 	"sync"
+	"sync/atomic"
 	"time"
 
 	"vg/mon"
@@ -406,36 +407,92 @@ outer:
 				continue
 			}
 			for k := 0; k < plan.PerTag; k++ {
-				r := prog.NewRand(seed, hashStr(e.Name), hashStr(tag), uint64(k))
-				id := rt.NextID()
-				sc := prog.GenScenario(e.Prog, r, id, tag, k)
+				// "conc": G simultaneous executions of the same directive from G
+				// goroutines (generated code is re-entrant), each with its own
+				// tokens and scenario, each judged on its own.
+				group := 1
+				scTag := tag
+				if tag == "conc" {
+					if !e.Prog.ConcurrentOK {
+						break
+					}
+					group = []int{4, 8, 32}[k%3]
+					scTag = []string{"ok", "ok", "pred", "fault"}[k%4]
+					if !applicable(e.Prog, scTag) {
+						scTag = "ok"
+					}
+				}
+				scs := make([]*prog.Scenario, group)
+				ids := make([]uint64, group)
+				xs := make([]*rt.Exec, group)
+				for gi := 0; gi < group; gi++ {
+					r := prog.NewRand(seed, hashStr(e.Name), hashStr(tag), uint64(k), uint64(gi))
+					if group == 1 {
+						r = prog.NewRand(seed, hashStr(e.Name), hashStr(tag), uint64(k))
+					}
+					ids[gi] = rt.NextID()
+					scs[gi] = prog.GenScenario(e.Prog, r, ids[gi], scTag, k+gi)
+				}
+				sc := scs[0]
 				if pf != nil {
 					fmt.Fprintf(pf, "BEGIN %s %s %d\n", e.Name, tag, k)
 				}
 				baseline := runtime.NumGoroutine()
 				done := make(chan struct{})
-				var x *rt.Exec
 				var viols []Viol
 				var leak []mon.G
 				var leakIncon bool
-				var xp = new(*rt.Exec)
+				var started atomic.Bool
 				go func() {
 					defer close(done)
-					x = execute(e, sc, id, quiet, true)
-					*xp = x
-					leak, leakIncon = settle(x, baseline+1, quiet)
-					if !quiet {
-						viols = Judge(e, sc, x)
+					if group == 1 {
+						xs[0] = execute(e, scs[0], ids[0], quiet, true)
+					} else {
+						var wg sync.WaitGroup
+						gate := make(chan struct{})
+						for gi := 0; gi < group; gi++ {
+							wg.Add(1)
+							go func(gi int) {
+								defer wg.Done()
+								<-gate
+								xs[gi] = execute(e, scs[gi], ids[gi], quiet, false)
+							}(gi)
+						}
+						close(gate)
+						wg.Wait()
+					}
+					started.Store(true)
+					for gi := 0; gi < group; gi++ {
+						l, li := settle(xs[gi], baseline+1, quiet)
+						leak = append(leak, l...)
+						leakIncon = leakIncon || li
+						if !quiet {
+							for _, v := range Judge(e, scs[gi], xs[gi]) {
+								if group > 1 {
+									v.Why = fmt.Sprintf("[execution %d of %d simultaneous executions] %s", gi, group, v.Why)
+								}
+								viols = append(viols, v)
+							}
+						}
 					}
 				}()
 				verdict, dump := watch(done, quiet, func() int64 {
-					if *xp != nil {
-						return (*xp).Inflight.Load()
+					if !started.Load() {
+						return 1
 					}
-					return 1
+					var n int64
+					for _, x := range xs {
+						if x != nil {
+							n += x.Inflight.Load()
+						}
+					}
+					return n
 				})
-				b.Ran++
-				b.ByTag[tag]++
+				b.Ran += group
+				b.ByTag[tag] += group
+				if group > 1 {
+					b.Concurrent += group
+				}
 				if verdict != "done" {
 					b.Abandoned++
 					switch verdict {
@@ -449,6 +506,10 @@ outer:
 						if sc.GateOpen == "onfn" {
 							props = []string{"C11"}
 							why = fmt.Sprintf(" (the provider %d of another input of task %d is held until predicate %d is entered: the predicate must start as soon as its own inputs are available)", sc.PredGate[2], sc.PredGate[0], sc.PredGate[1])
+						}
+						if sc.GateOpen == "hwm" {
+							props = []string{"C03"}
+							why = " (every function is held until as many are in flight as the limit allows: the capacity must be real)"
 						}
 						b.Viols = append(b.Viols, CaseViol{Prog: e.Name, Tag: tag, Idx: k, Props: props,
 							Why: "stuck" + why + ": the directive has not returned, no harness event for 1.5 s and every goroutine is blocked in the same place in three consecutive dumps", Scenario: sc, Features: e.Prog.Features, Dump: dump})
@@ -479,8 +540,10 @@ outer:
 						b.Viols = append(b.Viols, CaseViol{Prog: e.Name, Tag: tag, Idx: k, Props: v.Props, Why: v.Why, Obs: v.Obs, Scenario: sc, Features: e.Prog.Features})
 					}
 				}
-				account(b, distinct, e, sc, x)
-				x.Close()
+				for gi := 0; gi < group; gi++ {
+					account(b, distinct, e, scs[gi], xs[gi])
+					xs[gi].Close()
+				}
 			}
 		}
 	}
